@@ -76,3 +76,12 @@ From PFG Require Import GenLoops.
 Theorem gen_flwdir_tuples_eq : forall ds mask, gen_flwdir_tuples ds mask = flwdir_tuples ds mask.
 Proof. exact GenFlwdirTuplesEq.gen_flwdir_tuples_eq. Qed.
 Print Assumptions gen_flwdir_tuples_eq.
+
+(* streams.streams regenerated from the source (generated/GenSeg.v, tools/gen_seg.py; `round` is the model's py_round) IS the model;
+   Some _ also says that on a loop-free network the walk of the source ends through its own exit test *)
+From PF Require Import GenSegStreamsEq.
+From PFG Require Import GenSeg.
+Theorem gen_streams_eq : forall ds sq mask max_len, wf ds -> topo ds sq ->
+  gen_streams ds sq mask max_len = Some (streams ds sq mask max_len).
+Proof. exact GenSegStreamsEq.gen_streams_eq. Qed.
+Print Assumptions gen_streams_eq.
